@@ -24,6 +24,14 @@ Proof.
 Qed.
 Print Assumptions range_decision_on_any_ordering.
 
+(* the same decision in the words of the property: v lies in an interval opened by an introduced
+   event ("0" preceding every version) that is not closed by a fixed event at or before v or a
+   last_affected event before v -- stated on the events as listed, no sorting involved *)
+Theorem range_decision_eq_declarative : forall evs v,
+  wf_events evs = true -> range_hit evs v = osv_decl evs v.
+Proof. exact range_hit_eq_decl. Qed.
+Print Assumptions range_decision_eq_declarative.
+
 Theorem other_package_never_matches : forall vuln q,
   (forall a, In a vuln -> a_name a <> q_name q \/ a_eco a <> q_eco q) -> is_affected vuln q = false.
 Proof. exact other_package_never_matches_lemma. Qed.
